@@ -197,6 +197,55 @@ Definition ref_run (cycles : nat) (p : prog T) : option (list (list (id * T)) * 
   let stop := tadd (p_tyme p) (match limit with Some l => l | None => tzero end) in
   ref_cycles (p_defs p) (p_tock p) limit stop cycles (p_tyme p) q [].
 
+(* the same reference, now producing the whole event trace (newest first, as [trace]) *)
+Definition mk (k : ekind) (i : id) (t : T) : ev T := {| e_kind := k; e_id := i; e_tyme := t |}.
+
+Definition visit_evs (D : amap (fdef T)) (now : T) (d : rdoer) : list (ev T) :=
+  if tleb (r_due d) now then
+    match out_at D (r_id d) (r_pc d) with
+    | OYield _ => [mk Recur (r_id d) now]
+    | _ => [mk Exit (r_id d) now; mk Clean (r_id d) now; mk Recur (r_id d) now]
+    end
+  else [].
+
+Fixpoint pass_evs (D : amap (fdef T)) (now : T) (q : list rdoer) : list (ev T) :=
+  match q with [] => [] | d :: q' => pass_evs D now q' ++ visit_evs D now d end.
+
+Fixpoint enter_evs (D : amap (fdef T)) (now : T) (ids : list id) : list (ev T) :=
+  match ids with
+  | [] => []
+  | i :: r => enter_evs D now r ++
+              match out_at D i 0 with
+              | OYield _ => [mk Enter i now]
+              | _ => [mk Exit i now; mk Clean i now; mk Enter i now]
+              end
+  end.
+
+(* forced exit of the doers still alive: reverse list order, i.e. the first doer's Exit is the newest event *)
+Fixpoint exit_evs (now : T) (q : list rdoer) : list (ev T) :=
+  match q with [] => [] | d :: q' => mk Exit (r_id d) now :: mk Cease (r_id d) now :: exit_evs now q' end.
+
+Fixpoint ref_trace_cycles (D : amap (fdef T)) (tock : T) (limit : option T) (stop : T) (cycles : nat)
+  (now : T) (q : list rdoer) (tr : list (ev T)) : option (list (ev T)) :=
+  match cycles with
+  | O => None
+  | S c =>
+    let q' := fst (ref_pass D now tock q) in
+    let tr' := pass_evs D now q ++ tr in
+    let now' := tadd now tock in
+    match q' with
+    | [] => Some (mk DoReturn 0%N now' :: tr')
+    | _ => if limited limit && tleb stop now' then Some (mk DoReturn 0%N now' :: exit_evs now' q' ++ tr')
+           else ref_trace_cycles D tock limit stop c now' q' tr'
+    end
+  end.
+
+Definition ref_trace (cycles : nat) (p : prog T) : option (list (ev T)) :=
+  let q := ref_enter (p_defs p) (p_tyme p) (p_doers p) in
+  let limit := option_map tabs (p_limit p) in
+  let stop := tadd (p_tyme p) (match limit with Some l => l | None => tzero end) in
+  ref_trace_cycles (p_defs p) (p_tock p) limit stop cycles (p_tyme p) q (enter_evs (p_defs p) (p_tyme p) (p_doers p)).
+
 (* ---------- the program class ---------- *)
 
 Definition quiet_step (stp : fstep T) : bool :=
@@ -320,7 +369,8 @@ Lemma loop_ref : forall todo f s acc s' g,
   Good s (todo ++ acc) ->
   let '(q', o) := ref_pass D (tyme s) tk todo in
   g = GReturn /\ deeds (get_sched s' 0%N) = map deed_of (acc ++ q') /\ Good s' (acc ++ q') /\
-  recs s' = rev o ++ recs s /\ tyme s' = tyme s /\ get_done s' 0%N = get_done s 0%N /\ oof s' = oof s.
+  recs s' = rev o ++ recs s /\ tyme s' = tyme s /\ get_done s' 0%N = get_done s 0%N /\
+  trace s' = pass_evs D (tyme s) todo ++ trace s.
 Proof.
   induction todo as [|d todo IH]; intros f s acc s' g E NF Dq Gd.
   - cbn [ref_pass map app] in *.
@@ -377,7 +427,8 @@ Proof.
         split; [exact I2|]. split; [exact I3|]. split.
         { rewrite I4. unfold recs at 1. unfold s3. cbn [trace set_deeds set_sched set_gen emit flat_map rec_of e_kind e_id e_tyme tyme app].
           cbn [rev]. rewrite <- app_assoc. reflexivity. }
-        split; [exact I5|]. split; [exact I6|exact I7].
+        split; [exact I5|]. split; [exact I6|].
+        rewrite I7. cbn [pass_evs]. unfold visit_evs, out_at. rewrite Due, Sc, Eo. rewrite <- app_assoc. reflexivity.
       * (* return: the doer leaves the deque *)
         destruct QS as [-> ->].
         match type of E with recur_loop tk f ?x _ = _ => set (s3 := x) in E end.
@@ -404,8 +455,9 @@ Proof.
         split; [exact I1|]. cbn [app]. split; [exact I2|]. split; [exact I3|]. split.
         { rewrite I4. unfold recs at 1. unfold s3. cbn [trace set_deeds set_sched set_gen set_done emit flat_map rec_of e_kind e_id e_tyme tyme app].
           cbn [rev]. rewrite <- app_assoc. reflexivity. }
-        split; [exact I5|]. split; [|exact I7].
-        rewrite I6. unfold s3. rewrite get_done_other by (intro X; apply Ni; now rewrite X). reflexivity.
+        split; [exact I5|]. split.
+        { rewrite I6. unfold s3. rewrite get_done_other by (intro X; apply Ni; now rewrite X). reflexivity. }
+        rewrite I7. cbn [pass_evs]. unfold visit_evs, out_at. rewrite Due, Sc, Eo. rewrite <- app_assoc. reflexivity.
     + (* not due: re-appended unchanged *)
       rewrite (recur_loop_notdue f s 0%N _ _ _ Dq Due) in E.
       match type of E with recur_loop tk f ?x _ = _ => set (s3 := x) in E end.
@@ -423,7 +475,8 @@ Proof.
       destruct IH as (I1 & I2 & I3 & I4 & I5 & I6 & I7).
       rewrite <- app_assoc in I2, I3. cbn [app] in *.
       split; [exact I1|]. split; [exact I2|]. split; [exact I3|]. split; [exact I4|].
-      split; [exact I5|]. split; [exact I6|exact I7].
+      split; [exact I5|]. split; [exact I6|].
+      rewrite I7. cbn [pass_evs]. unfold visit_evs. rewrite Due, app_nil_r. reflexivity.
 Qed.
 
 (* one whole pass of the root *)
@@ -432,7 +485,8 @@ Lemma pass_ref f s q s' g :
   deeds (get_sched s 0%N) = map deed_of q -> Good s q ->
   let '(q', o) := ref_pass D (tyme s) tk q in
   g = GReturn /\ deeds (get_sched s' 0%N) = map deed_of q' /\ Good s' q' /\
-  recs s' = rev o ++ recs s /\ tyme s' = tyme s /\ get_done s' 0%N = get_done s 0%N /\ oof s' = oof s.
+  recs s' = rev o ++ recs s /\ tyme s' = tyme s /\ get_done s' 0%N = get_done s 0%N /\
+  trace s' = pass_evs D (tyme s) q ++ trace s.
 Proof.
   intros E NF Dq Gd.
   destruct f as [|f]; [rewrite recur_pass_O in E; inversion E; subst; congruence|].
@@ -455,7 +509,8 @@ Lemma enter_ref : forall ids f s q s' g,
   (forall i, In i ids -> startable s i = true /\ i <> 0%N /\ quiet_def (get D i) = true /\ ~ In i (map r_id q)) ->
   g = GReturn /\ deeds (get_sched s' 0%N) = map deed_of (q ++ ref_enter D (tyme s) ids) /\
   Good s' (q ++ ref_enter D (tyme s) ids) /\
-  recs s' = recs s /\ tyme s' = tyme s /\ get_done s' 0%N = get_done s 0%N /\ oof s' = oof s.
+  recs s' = recs s /\ tyme s' = tyme s /\ get_done s' 0%N = get_done s 0%N /\
+  trace s' = enter_evs D (tyme s) ids ++ trace s.
 Proof.
   induction ids as [|i ids IH]; intros f s q s' g E NF Dq Gd ND A.
   - destruct f as [|f]; [rewrite enter_own_O in E; inversion E; subst; congruence|].
@@ -505,7 +560,7 @@ Proof.
       change (tyme s3) with (tyme s) in IH. rewrite <- app_assoc in IH. cbn [app] in IH.
       destruct IH as (I1 & I2 & I3 & I4 & I5 & I6 & I7).
       split; [exact I1|]. split; [exact I2|]. split; [exact I3|]. split; [exact I4|].
-      split; [exact I5|]. split; [|exact I7].
+      split; [exact I5|]. split; [|rewrite I7; cbn [enter_evs]; rewrite Oa, <- app_assoc; reflexivity].
       rewrite I6. unfold s3. change (get_done (set_deeds ?a _ _) ?j) with (get_done a j).
       change (get_done (set_gen (emit (set_gen ?a _ _) _ _) _ _) ?j) with (get_done a j).
       apply get_done_other. congruence.
@@ -533,7 +588,7 @@ Proof.
       change (tyme s3) with (tyme s) in IH.
       destruct IH as (I1 & I2 & I3 & I4 & I5 & I6 & I7).
       split; [exact I1|]. split; [exact I2|]. split; [exact I3|]. split; [exact I4|].
-      split; [exact I5|]. split; [|exact I7].
+      split; [exact I5|]. split; [|rewrite I7; cbn [enter_evs]; rewrite Oa, <- app_assoc; reflexivity].
       rewrite I6. unfold s3. rewrite get_done_other by congruence.
       change (get_done (set_gen (emit (emit (emit (set_gen ?a _ _) _ _) _ _) _ _) _ _) ?j) with (get_done a j).
       apply get_done_other. congruence.
@@ -593,6 +648,96 @@ Proof.
       exact (IH f s2 (d :: q') (outs ++ [o]) limit stop Dq2 G2 R2 Dn2 O).
 Qed.
 
+(* ---------- the whole trace ---------- *)
+
+Lemma split_mark_none (q : list rdoer) acc : split_mark (map deed_of q) acc = None.
+Proof. revert acc. induction q as [|d q IH]; intro acc; [reflexivity|]. cbn [map split_mark deed_of]. apply IH. Qed.
+
+Lemma unrotate_plain (q : list rdoer) : unrotate (map deed_of q) = map deed_of q.
+Proof. unfold unrotate. now rewrite split_mark_none. Qed.
+
+(* closing in list order: oldest event first is Cease, Exit of the first element *)
+Fixpoint close_evs (now : T) (l : list rdoer) : list (ev T) :=
+  match l with [] => [] | d :: l' => close_evs now l' ++ [mk Exit (r_id d) now; mk Cease (r_id d) now] end.
+
+Lemma close_evs_snoc now l d : close_evs now (l ++ [d]) = mk Exit (r_id d) now :: mk Cease (r_id d) now :: close_evs now l.
+Proof. induction l as [|x l IH]; [reflexivity|]. cbn [app close_evs]. now rewrite IH. Qed.
+
+Lemma close_evs_rev now q : close_evs now (rev q) = exit_evs now q.
+Proof. induction q as [|d q IH]; [reflexivity|]. cbn [rev exit_evs]. now rewrite close_evs_snoc, IH. Qed.
+
+Lemma close_list_ref : forall l f s,
+  Good s l -> oof (close_list tk f s (map deed_of l)) = false ->
+  trace (close_list tk f s (map deed_of l)) = close_evs (tyme s) l ++ trace s.
+Proof.
+  induction l as [|d l IH]; intros f s Gd O.
+  - destruct f as [|f]; [discriminate O|]. reflexivity.
+  - destruct f as [|f]; [discriminate O|].
+    cbn [map] in *. rewrite close_list_S in O |- *. change (deed_of d) with (DDeed (r_id d) (r_due d)) in O |- *.
+    cbv beta iota in O |- *.
+    destruct Gd as (Df & ND & A).
+    destruct (A d (or_introl eq_refl)) as (Gi & Ni & Qi).
+    destruct (quiet_def_inv _ Qi) as (k & sc & Dfi & Qsc & Sc).
+    assert (Dfs : get (defs s) (r_id d) = Some (FLeaf k sc)) by (rewrite Df; exact Dfi).
+    destruct f as [|f]; [discriminate O|].
+    rewrite gen_close_S, Gi, Dfs in O |- *.
+    match type of O with oof (close_list tk _ ?x _) = _ => set (s3 := x) in * end.
+    assert (G3 : Good s3 l).
+    { split; [exact Df|]. split; [cbn [map] in ND; now inversion ND|].
+      intros x Ix.
+      assert (Ne : r_id x <> r_id d).
+      { cbn [map] in ND. inversion ND as [|? ? Nin _]; subst. intro Eq. apply Nin. rewrite <- Eq. apply in_map. exact Ix. }
+      destruct (A x (or_intror Ix)) as (A1 & A2 & A3). split; [|auto].
+      unfold s3. rewrite get_gen_other by exact Ne.
+      change (get_gen (emit (emit ?a _ _) _ _) ?j) with (get_gen a j).
+      rewrite get_gen_other by exact Ne. exact A1. }
+    rewrite (IH (S f) s3 G3 O). cbn [close_evs]. rewrite <- app_assoc. reflexivity.
+Qed.
+
+(* exit() of the root over a deque of suspended quiet leaves *)
+Lemma close_own_ref f s q :
+  deeds (get_sched s 0%N) = map deed_of q -> Good s q -> oof (close_own tk f s 0%N) = false ->
+  trace (close_own tk f s 0%N) = exit_evs (tyme s) q ++ trace s.
+Proof.
+  intros Dq Gd O. destruct f as [|f]; [discriminate O|].
+  rewrite close_own_S in *. cbv zeta in *. rewrite Dq, unrotate_plain, <- map_rev in *.
+  assert (G1 : Good (set_deeds s 0%N []) (rev q)).
+  { destruct Gd as (Df & ND & A). split; [exact Df|]. split.
+    - rewrite map_rev. apply NoDup_rev. exact ND.
+    - intros x Ix. apply A. now apply in_rev. }
+  rewrite (close_list_ref (rev q) f _ G1 O), close_evs_rev. reflexivity.
+Qed.
+
+Lemma cycles_trace cycles : forall f s q limit stop,
+  deeds (get_sched s 0%N) = map deed_of q -> Good s q ->
+  oof (cycle_loop tk cycles f s limit stop) = false ->
+  ref_trace_cycles D tk limit stop cycles (tyme s) q (trace s) = Some (trace (cycle_loop tk cycles f s limit stop)).
+Proof.
+  induction cycles as [|c IH]; intros f s q limit stop Dq Gd O; cbn [cycle_loop ref_trace_cycles] in *; [discriminate|].
+  destruct (recur_pass tk f s 0%N) as [s1 r] eqn:E.
+  assert (NF : r <> GFuel).
+  { intro; subst r. rewrite (recur_pass_fuel tk f s 0%N s1 E) in O. discriminate. }
+  pose proof (pass_ref f s q s1 r E NF Dq Gd) as P.
+  destruct (ref_pass D (tyme s) tk q) as [q' o]. cbn [fst].
+  destruct P as (-> & Dq1 & G1 & _ & T1 & _ & Tr1).
+  cbv zeta in *.
+  set (s2 := set_tyme s1 (tadd (tyme s1) tk)) in *.
+  assert (Dq2 : deeds (get_sched s2 0%N) = map deed_of q') by exact Dq1.
+  assert (G2 : Good s2 q') by (eapply good_frame; [exact G1|reflexivity|reflexivity]).
+  rewrite <- Tr1, <- T1. change (tadd (tyme s1) tk) with (tyme s2). change (trace s1) with (trace s2).
+  rewrite Dq2 in O |- *. unfold limited.
+  destruct q' as [|d q']; cbn [map] in *.
+  - f_equal. cbn [trace emit].
+    assert (G3 : Good (set_done s2 0%N (Some true)) []) by (eapply good_frame; [exact G2|reflexivity|reflexivity]).
+    f_equal; [unfold mk; f_equal; symmetry; exact (proj1 (proj2 (end_facts f (set_done s2 0%N (Some true)) DoReturn)))|].
+    rewrite (close_own_ref f (set_done s2 0%N (Some true)) [] Dq2 G3 O). reflexivity.
+  - destruct (_ && _) eqn:Lim.
+    + f_equal. cbn [trace emit].
+      f_equal; [unfold mk; f_equal; symmetry; exact (proj1 (proj2 (end_facts f s2 DoReturn)))|].
+      symmetry. exact (close_own_ref f s2 (d :: q') Dq2 G2 O).
+    + exact (IH f s2 (d :: q') limit stop Dq2 G2 O).
+Qed.
+
 End Due.
 
 Section DueRun.
@@ -632,6 +777,34 @@ Proof.
   pose proof (cycles_ref (p_tock p) (p_defs p) cycles fuel (set_rlive s1 true) _ [] _ _ Dq1 G2 R1 Dn1 O) as C.
   unfold ref_run. change (tyme (set_rlive s1 true)) with (tyme s1) in C.
   rewrite T1 in C |- *. exact C.
+Qed.
+
+(* ... and the whole event trace (Enter / Recur / Clean / Exit of every doer, the
+   forced Cease / Exit of the survivors in reverse enter order, DoReturn) is the
+   reference's *)
+Theorem do_run_trace cycles fuel (p : prog T) :
+  flat_static p = true -> oof (do_run cycles fuel p) = false ->
+  ref_trace cycles p = Some (trace (do_run cycles fuel p)).
+Proof.
+  intros F O. destruct (flat_static_inv p F) as (ND & A).
+  unfold do_run in *.
+  destruct (enter_own (p_tock p) fuel (init_st p) 0%N (p_doers p)) as [s1 r] eqn:E.
+  assert (NF : r <> GFuel).
+  { intro; subst r. rewrite (enter_own_fuel _ _ _ _ _ _ E) in O. discriminate. }
+  assert (G0 : Good (p_defs p) (init_st p) []).
+  { split; [reflexivity|]. split; [constructor|]. intros d []. }
+  assert (A0 : forall i, In i (p_doers p) -> startable (init_st p) i = true /\ i <> 0%N /\
+                quiet_def (get (p_defs p) i) = true /\ ~ In i (map r_id (@nil (@rdoer T)))).
+  { intros i I. destruct (A i I). repeat split; auto. }
+  destruct (enter_ref (p_tock p) (p_defs p) (p_doers p) fuel (init_st p) [] s1 r E NF eq_refl G0 ND A0)
+    as (-> & Dq1 & G1 & _ & T1 & _ & Tr1).
+  cbn [app] in *. change (tyme (init_st p)) with (p_tyme p) in *. change (trace (init_st p)) with (@nil (ev T)) in Tr1.
+  rewrite app_nil_r in Tr1.
+  assert (G2 : Good (p_defs p) (set_rlive s1 true) (ref_enter (p_defs p) (p_tyme p) (p_doers p))).
+  { eapply good_frame; [exact G1|reflexivity|reflexivity]. }
+  pose proof (cycles_trace (p_tock p) (p_defs p) cycles fuel (set_rlive s1 true) _ _ _ Dq1 G2 O) as C.
+  unfold ref_trace. change (tyme (set_rlive s1 true)) with (tyme s1) in C. change (trace (set_rlive s1 true)) with (trace s1) in C.
+  rewrite T1, Tr1 in C. rewrite T1. exact C.
 Qed.
 
 End DueRun.
